@@ -113,3 +113,26 @@ package generic
 //@   ensures {C04} persistent: len(params.Command) == 2 && old(glive(params, gkey(params))) && gcur(params) == zerotime ==> result1 == nil && bstr(result0) == ":-1\r\n"
 //@   ensures {C04} deadline: len(params.Command) == 2 && old(glive(params, gkey(params))) && gcur(params) != zerotime ==> result1 == nil && bstr(result0) == ":" ++ (itoa(lower(garg(params, 0)) == "pexpiretime" ? unixmilli(gcur(params)) : unixsec(gcur(params))) ++ "\r\n")
 //@   ensures {C13,C04} pure: gpure(params)
+
+// ---- DEL key [key ...]: every named live key whose value the accounting supports is removed; nothing else is removed,
+// nothing is added or changed; the reply is the number of keys removed.
+//@ spec gnamed(params internal.HandlerFuncParams, k string) bool = exists i int :: 1 <= i && i < len(params.Command) && garg(params, i) == k
+//@ spec gstore(params internal.HandlerFuncParams) map[string]internal.KeyData = $srv.store[dbof(params.Context)]
+
+//@ func handleDel props C01,C04,C12
+//@   requires henv(params) && $srv.store[dbof(params.Context)] != nil
+//@   assumes own-cmd: len(params.Command) >= 2 ==> disjointarr(params.Command, $srv.keysWithExpiry.keys[dbof(params.Context)])
+//@   ensures {C01} arity: len(params.Command) < 2 ==> result1 != nil
+//@   ensures {C01} ok: len(params.Command) >= 2 ==> result1 == nil
+//@   ensures {C01} removed: len(params.Command) >= 2 ==> (forall k string :: gnamed(params, k) && old(glive(params, k)) && sugardb.memok(old(gstore(params)[k].Value)) ==> !has(gstore(params), k))
+//@   ensures {C01,C20} onlynamed: forall k string :: old(has(gstore(params), k)) && !has(gstore(params), k) ==> gnamed(params, k) && old(glive(params, k))
+//@   ensures {C01,C20} kept: forall k string :: has(gstore(params), k) ==> old(has(gstore(params), k)) && gstore(params)[k] == old(gstore(params)[k])
+//@   ensures {C01} reply: len(params.Command) >= 2 ==> bstr(result0) == ":" ++ (itoa(old(len(gstore(params))) - len(gstore(params))) ++ "\r\n")
+//@   loop 0
+//@     invariant inv($srv, maps) && inv($srv, locks) && inv($srv, dbs) && sugardb.cachewf($srv, dbof(params.Context)) && nolocks() && gstore(params) == old(gstore(params)) && gstore(params) != nil
+//@     invariant forall k string :: domain0(k) <==> gnamed(params, k)
+//@     invariant forall k string :: domain0(k) ==> rangemap[k] == old(glive(params, k))
+//@     invariant forall k string :: seen(k) && old(glive(params, k)) && sugardb.memok(old(gstore(params)[k].Value)) ==> !has(gstore(params), k)
+//@     invariant forall k string :: old(has(gstore(params), k)) && !has(gstore(params), k) ==> seen(k) && old(glive(params, k))
+//@     invariant forall k string :: has(gstore(params), k) ==> old(has(gstore(params), k)) && gstore(params)[k] == old(gstore(params)[k])
+//@     invariant count == old(len(gstore(params))) - len(gstore(params))
